@@ -815,6 +815,12 @@ func (in *Interp) substr(s, lo, hi Term) Term {
 
 // toIface boxes a concrete value into an interface value.
 func (in *Interp) toIface(v Val, from, to types.Type, st *State, f *Frame, pos token.Pos) Val {
+	if _, isPtr := v.(PtrV); isPtr && !isErrorType(to) {
+		// an interface holding a pointer is represented by the pointer itself (the dynamic
+		// type is not needed: interface calls go through interface contracts); contracts can
+		// then talk about the object behind the interface.  Boxed only when stored in containers.
+		return v
+	}
 	if isErrorType(to) {
 		if sc, ok := v.(Sc); ok && sc.T.Sort == SErr {
 			return v
